@@ -197,6 +197,7 @@ class Explorer:
         self.paths = 0
         self.normal_paths = 0
         self.pruned_late = 0
+        self.extra: dict[str, Any] = {}  # what a bounded stand-in unit ran (for the evidence)
         self.functions: dict[str, str] = {}  # qualname -> source hash
         self.solver_ms = 0.0
         self.assumptions: set[str] = set()
